@@ -436,6 +436,11 @@ class SchedulingSolver(BaseModelWithJson):
     def build_equivalent_weighted_objective(self) -> bool:
         # Replace objectives O_i, O_j, O_k with
         # O = WiOi+WjOj+WkOk etc.
+        # an earlier call (solver initialized twice, or another solver created for the
+        # same problem) has registered its equivalent objective and indicator in the
+        # problem: they are rebuilt, and must not be taken for user objectives
+        self.problem.objectives.pop("MinimizeEquivalentObjective", None)
+        self.problem.indicators.pop("EquivalentIndicator", None)
         equivalent_single_objective = z3.Int("EquivalentSingleObjective")
         weighted_objectives = []
         for obj in self.problem.objectives.values():
